@@ -349,7 +349,7 @@ def run_property(pid, tier, keep=False, seed=0):
                         if kr.get('cex') and set(kr['props']) & {pid} and ob['fn'] in kr.get('items', [ob['fn']]):
                             cex = W.from_kani(kr, REPO)
                             break
-                if cex is None:
+                if cex is None and not os.environ.get('VERIF_NO_KANI_CEX'):
                     try:
                         cex = W.search(r['unit'], ob, REPO, seed)
                     except Exception as e:  # witness search is best effort only
